@@ -60,6 +60,7 @@ AlphaSchedM == AlphaOf([Mutation |-> {"m1", "m2", "m3", "m4", "ml"}, T |-> {"s",
 AlphaSchedM2 == AlphaOf([Mutation |-> {"m1", "m3", "ml"}, T |-> {"s"}])
 AlphaMultiV == AlphaOf([Query |-> {"f", "s"}])
 ArgOptsMulti == [ f |-> {<<ArgV("a", Lit("var", "n"))>>, <<ArgV("b", Lit("var", "x"))>>}, g |-> {<<ArgV("r", Lit("int", 2))>>} ]
+AlphaMultiN == AlphaOf([Query |-> {"o"}, T |-> {"s", "d"}])
 AlphaMultiO == AlphaOf([Query |-> {"o", "s"}, T |-> {"s"}])
 AlphaMultiF == AlphaOf([Query |-> {"on", "lnn", "s"}, T |-> {"sn"}])
 AlphaMultiT == AlphaOf([Query |-> {"on", "lo", "s"}])
